@@ -672,7 +672,32 @@ func (g *gen) nextStr() Case {
 	return Case{K: "str", V: v, R: g.replacer(v), Sp: g.space()}
 }
 
+// a history: 2..5 serialisations of objects of different sizes on one runtime, mostly through Object.MarshalJSON
+func (g *gen) nextHist() Case {
+	r := g.r
+	n := 2 + r.Pick(40, 35, 15, 10)
+	c := Case{K: "hist"}
+	for i := 0; i < n; i++ {
+		var v *V
+		for try := 0; ; try++ {
+			v = g.value(0, 1+r.Pick(30, 40, 20, 10), 0, false)
+			if v.T == "arr" || v.T == "obj" || try > 20 || (try > 4 && (v.T == "tojson" || strings.HasPrefix(v.T, "box") || v.T == "fun")) {
+				break
+			}
+		}
+		o := "m"
+		if r.Chance(25) {
+			o = "s"
+		}
+		c.Ops = append(c.Ops, HOp{O: o, V: v})
+	}
+	return c
+}
+
 func (g *gen) next() Case {
+	if len(g.pending) == 0 && g.r.Chance(6) {
+		return g.nextHist()
+	}
 	if len(g.pending) > 0 || g.r.Chance(40) {
 		return g.nextParse()
 	}
